@@ -56,8 +56,10 @@ int main(int argc, char** argv) {
   { GpInput c; c.R = 300; c.kind = "corpus.stale-curr_x-join"; c.subj = {Path64{Point64(60, 210), Point64(200, 0), Point64(150, 20), Point64(140, 60), Point64(100, 100)}}; c.clip = {Path64{Point64(80, 170), Point64(240, 90), Point64(190, 60)}}; corpus.push_back(c); }
   // horizontal edges in general position: self-intersecting pentagon with a horizontal edge, triangle with a horizontal edge
   { GpInput c; c.R = 400; c.kind = "corpus.horizontal-edges"; c.subj = {Path64{Point64(100, 240), Point64(140, 60), Point64(360, 60), Point64(380, 240), Point64(220, 20)}}; c.clip = {Path64{Point64(20, 40), Point64(260, 40), Point64(220, 220)}}; corpus.push_back(c); }
+  if (getenv("VERIF_NO_CORPUS")) corpus.clear();   // diagnostic switch: measures what the generators find on their own
   for (int i = 0; i < N + (int)corpus.size(); ++i) {
     GpInput in = i < (int)corpus.size() ? corpus[i] : gen_gp(g);
+    stat("input.kind." + (in.kind.rfind("corpus", 0) == 0 ? std::string("corpus") : (in.kind == "nearparallel" || in.kind == "stairs" || in.kind == "stale-x-coincidence") ? in.kind : std::string("plain")));
     auto probes = gen_probes(g, in.subj, in.clip, thorough ? 120 : 60);
     std::string sols = run_all(g, in, true);
     emitS("region", "REGIONS " + S(in.subj) + " " + S(in.clip) + " " + probes_str(probes) + " " + sols);
